@@ -28,7 +28,7 @@ def run(chk):
         for dt in ('real', 'complex'):
             for kind in (['tones'] if quick else ['noise', 'tones', 'arma']):
                 x = zoo.signal(rng, N, dt == 'complex', kind)
-                for name in zoo.CLASSES:
+                for name in zoo.CLASSES + zoo.VARIANTS:
                     order = {'pburg': p['order'], 'pyule': p['order'], 'pcovar': p['order'], 'pmodcovar': p['order'], 'pminvar': p['order'],
                              'parma': p['P'], 'pma': p['maQ'], 'pmusic': p['IP'], 'pev': p['IP']}.get(name, 0)
                     ev = {'ev': 'grid', 'cls': name, 'dt': dt, 'N': N, 'nfft': nfft, 'c': c, 'lag': p['corrlag'], 'order': order}
